@@ -74,6 +74,8 @@ type interp struct {
 
 var errClosure = errors.New("closure gave up")
 
+var runSeq int
+
 func toConfig(c Cfg) originium.Config {
 	return originium.Config{
 		SkipListMaxLevel: c.SkipListMaxLevel, SkipListP: c.SkipListP,
@@ -85,7 +87,11 @@ func toConfig(c Cfg) originium.Config {
 // Run interprets the program against a fresh directory.
 func Run(p Program, scratch string) (out *Outcome) {
 	out = &Outcome{Classes: map[string]bool{}, Counts: map[string]int{}}
-	dir := filepath.Join(scratch, "db")
+	// a directory of its own for every case: a flusher goroutine that outlives its case (engine
+	// misbehaviour under test) can then neither write into the next case's directory nor be taken
+	// for the next case's flusher by the gate controller
+	runSeq++
+	dir := filepath.Join(scratch, fmt.Sprintf("db-%d", runSeq))
 	_ = os.RemoveAll(dir)
 	defer os.RemoveAll(dir)
 	in := &interp{p: p, dir: dir, model: &Model{}, out: out, cfg: p.Cfg, tokens: map[string]int{}, status: map[int]string{},
@@ -114,6 +120,9 @@ func Run(p Program, scratch string) (out *Outcome) {
 	defer stopWD()
 	if p.Big {
 		out.class("multi_MiB_tables_mode")
+	}
+	if p.Many {
+		out.class("many_tables_mode")
 	}
 	if !in.openDB() {
 		return
@@ -656,6 +665,15 @@ func (in *interp) exec(o Op) {
 		}
 	case "update":
 		in.doUpdate(o)
+	case "marathon":
+		in.out.class("marathon_mode")
+		for i := 0; i < o.N; i++ {
+			in.beat.Store(time.Now().UnixNano())
+			in.doUpdate(Op{Op: "update", Ups: []UpOp{{Op: "set", K: i % len(in.p.Keys), VLen: 0}}})
+			if len(in.out.Discs) > 0 {
+				break
+			}
+		}
 	case "burst":
 		for i := 0; i < o.N; i++ {
 			in.doUpdate(Op{Op: "update", Ups: []UpOp{{Op: "set", K: (o.K + i) % len(in.p.Keys), VLen: 0}}})
@@ -824,7 +842,9 @@ func (in *interp) doUpdate(o Op) {
 		in.status[no] = "abandoned"
 		in.disc("update_result", fmt.Sprintf("Update returned unexpected error %v", err))
 	}
-	in.out.Hist = append(in.out.Hist, *h)
+	if len(in.out.Hist) < 5000 {
+		in.out.Hist = append(in.out.Hist, *h)
+	}
 	if err == nil && wrote && !failed && in.p.AutoRead {
 		in.afterCommit(append([]int{}, lt.m.order...))
 	}
